@@ -67,8 +67,21 @@ def is_rows(t):
     """[line.replace(':', '').split() for line in LINES]"""
     if t[0] == 'comp' and len(t[1]) == 1 and t[1][0][1] == TRUE:
         b = t[1][0][0]
-        return (is_lines(b[3]) or is_open_file(b[3])) and tokens_of(t[2], b)
+        src = b[3]
+        if src[0] == 'slice' and src[2] in (NONE, C(0)):
+            src = src[1]               # lines[:end]: a prefix keeps the line numbers (what lies behind `end` is not the instance)
+        return (is_lines(src) or is_open_file(src)) and tokens_of(t[2], b)
     return False
+
+
+def nonempty_file_guard(c_, br_):
+    """the branch taken when the file has lines at all (`if not lines: return model` in front of everything): no condition on
+    the instance - an empty file has no agents"""
+    t_ = c_.cond
+    neg_ = not br_
+    while t_[0] == 'not':
+        t_, neg_ = t_[1], not neg_
+    return (not neg_) and (is_lines(t_) or (t_[0] == 'call' and t_[1] == S('len') and len(t_[2]) == 1 and is_lines(t_[2][0])))
 
 
 class Reader:
@@ -663,7 +676,14 @@ def check_reader(rep, R):
         if not rl:
             rep.fail('C10.R4', w, 'with -twopl every pair receives its lecturer rank %s' % cfg, got='rank_lecturer never set', construct='rank_lecturer never set')
         for e, ctx in rl:
-            ifs = [c for c, _ in ctx if c.kind == 'if']
+            # (a guard "the file has lines at all" is no condition on the instance: an empty file has no pairs)
+            def nonempty_file_test(c_, br_):
+                t_ = c_.cond
+                neg_ = not br_
+                while t_[0] == 'not':
+                    t_, neg_ = t_[1], not neg_
+                return (not neg_) and (is_lines(t_) or (t_[0] == 'call' and t_[1] == S('len') and len(t_[2]) == 1 and is_lines(t_[2][0])))
+            ifs = [c for c, br in ctx if c.kind == 'if' and not nonempty_file_test(c, br)]
             fors = [c for c, _ in ctx if c.kind == 'for']
             pair = e.target[1]
             okd = all_pairs_loops(fors, R.model) and pair == fors[-1].binder and not ifs
@@ -696,7 +716,7 @@ def check_reader(rep, R):
     for e, ctx in ls:
         pair = e.target[1]
         fors = [c for c, _ in ctx if c.kind == 'for']
-        ifs = [c for c, _ in ctx if c.kind == 'if']
+        ifs = [c for c, br in ctx if c.kind == 'if' and not nonempty_file_guard(c, br)]
         okd = all_pairs_loops(fors, R.model) and pair == fors[-1].binder and not ifs
         v = idnorm(R.repo, e.value)
         okv = v[0] == 'idx' and v[2] in (A(pair, 'project_index'), BIN('Sub', A(pair, 'projectID'), C(1)))
